@@ -214,13 +214,14 @@ def merge(results):
 
 def write_replay(pid, violation):
     case = violation["case"]
-    directory = os.path.join(HERE, "replays", pid)
+    directory = os.path.join(os.environ.get(
+        "VERIF_REPLAY_DIR", os.path.join(HERE, "replays")), pid)
     os.makedirs(directory, exist_ok=True)
     path = os.path.join(directory, "{}-{}-{}-{}.json".format(
         case["tier"], case["seed"], case["shard"], case["index"]))
     with open(path, "w") as f:
         json.dump(dict(violation, property=pid), f, indent=1)
-    return os.path.relpath(path, HERE)
+    return os.path.relpath(path, HERE) if path.startswith(HERE) else path
 
 
 def controller(args):
@@ -340,8 +341,10 @@ def controller(args):
         "violations": len(unlisted) if recorded == total_failed else
         max(len(unlisted), total_failed - sum(absorbed.values())),
     }
-    os.makedirs(os.path.join(HERE, "evidence"), exist_ok=True)
-    path = os.path.join(HERE, "evidence", pid + ".json")
+    evidence_dir = os.environ.get(
+        "VERIF_EVIDENCE_DIR", os.path.join(HERE, "evidence"))
+    os.makedirs(evidence_dir, exist_ok=True)
+    path = os.path.join(evidence_dir, pid + ".json")
     with open(path + ".tmp", "w") as f:
         json.dump(evidence, f, indent=1, sort_keys=True)
     os.replace(path + ".tmp", path)
